@@ -89,6 +89,30 @@ def compare_run(check, beh, real, key_prefix):
     return ok
 
 
+_INT = lambda x: isinstance(x, int) and not isinstance(x, bool)  # noqa: E731
+_SEQI = lambda x: isinstance(x, list) and all(_INT(v) for v in x)  # noqa: E731
+_SCHEMA = {
+    "SH": dict(ep=_INT, perm=_SEQI, neg=_SEQI),
+    "CG": dict(ep=_INT, b=_INT, pos=_SEQI, bas=_SEQI, neg=_SEQI),
+    "ZG": dict(ep=_INT, b=_INT), "AS": dict(ep=_INT, b=_INT, net=_INT),
+    "OS": dict(ep=_INT, b=_INT, pv=_INT), "SC": dict(ep=_INT, n=_INT),
+    "EV": dict(cb=_INT, ep=_INT), "LG": dict(cb=_INT, ep=_INT), "SV": dict(cb=_INT, name=_INT, pv=_INT),
+}
+for _k in ("TS", "ES", "BS", "BE", "EE", "TE"):
+    _SCHEMA[_k] = dict(ep=_INT, b=_INT, cb=_INT, stop=lambda x: isinstance(x, bool), pv=_INT,
+                       inj=lambda x: isinstance(x, bool))
+
+
+def malformed(ev):
+    """Index of the first event that is not even shaped like a specification event (the
+    trace spec is total only on well-shaped events), or None."""
+    for i, e in enumerate(ev):
+        sch = _SCHEMA.get(e.get("k"))
+        if sch is None or set(e) != set(sch) | {"k"} or not all(f(e[n]) for n, f in sch.items()):
+            return i
+    return None
+
+
 def to_trace(cfg, real):
     """Real run -> one TraceTrain line."""
     fin = dict(stop=real["stop"], pver=real["pver"], sched=real["sched"],
@@ -130,3 +154,71 @@ def validate_traces(lines, timeout=900):
         acc.append(v["matched"] == v["need"])
         matched.append(v["matched"])
     return res, acc, matched
+
+
+def replay_behaviours(chk, behs, seed, key="replay", nontrivial=None, sample_every=400, post=None,
+                      opts=None):
+    """spec -> code: drive the real fit() along each exported behaviour."""
+    for n, beh in enumerate(behs):
+        o = dict(time_flag=(n % 5 == 0), k=n % 3)
+        if opts:
+            o.update(opts(n, beh))
+        real = trainrun.real_run(beh["cfg"], plan=trainrun.plan_from_hist(beh["hist"]),
+                                 force=trainrun.draws_from_hist(beh["hist"]), seed=seed + n, **o)
+        ok = compare_run(chk, beh, real, key)
+        if ok and post:
+            post(chk, beh, real, n)
+        chk.evaluations += 1
+        if nontrivial is None or nontrivial(beh):
+            chk.nontriv((key, n))
+        if n % sample_every == 7:
+            chk.sample(dict(cfg=beh["cfg"], events=[[e["k"], e.get("ep"), e.get("b")] for e in beh["hist"]][:40]))
+
+
+def trace_phase(chk, runs, controls, timeout=1800, key="trace"):
+    """code -> spec.  runs: list of (cfg, real, meta).  controls: list of (name, corrupted line)
+    that TraceTrain must reject."""
+    lines, metas = [], []
+    for cfg, real, meta in runs:
+        if real["error"] is not None:
+            chk.violation(key + ":exception:" + type(real["error"]).__name__,
+                          dict(cfg=cfg, meta=meta, error=repr(real["error"])))
+            continue
+        compare_run(chk, dict(cfg=cfg, hist=real["hist"],
+                              fin=dict(stop=real["stop"], pver=real["pver"], sched=real["sched"])), real, key)
+        bad = malformed(real["hist"])
+        if bad is not None:
+            chk.violation("%s:rejected:%s" % (key, real["hist"][bad].get("k")),
+                          dict(cfg=cfg, meta=meta, why="event has no counterpart in the specification",
+                               event=real["hist"][bad]))
+            continue
+        lines.append(to_trace(cfg, real))
+        metas.append(meta)
+    ctl = []
+    for c in controls:
+        try:
+            ctl.append(c(lines))
+        except (StopIteration, IndexError):
+            if not chk.violations:          # no donor trace although nothing was rejected: generator too weak
+                raise common.MachineryError("no donor trace for negative control " + c.__name__)
+    tres, acc, matched = validate_traces(lines + [c[1] for c in ctl], timeout=timeout)
+    chk.add_tlc(tres, "TraceTrain.tla (%d traces)" % len(lines))
+    if tres.violation:
+        chk.violation(key + ":invariant:" + str(tres.violation), dict(tlc=tres.raw[-4000:]))
+    for j, (name, _) in enumerate(ctl):
+        chk.control(not acc[len(lines) + j], name)
+    for i, ok in enumerate(acc[:len(lines)]):
+        if ok:
+            chk.traces += 1
+            if len(lines[i]["ev"]) > 8:
+                chk.nontriv((key, i))
+        else:
+            ev = lines[i]["ev"]
+            nxt = ev[matched[i]] if matched[i] < len(ev) else "(final projection)"
+            chk.violation("%s:rejected:%s" % (key, nxt.get("k") if isinstance(nxt, dict) else "final"),
+                          dict(cfg=lines[i]["cfg"], meta=metas[i], matched_prefix=matched[i],
+                               next_event=nxt, last_matched=ev[matched[i] - 1] if matched[i] else None,
+                               fin=lines[i]["fin"]))
+    if lines:
+        chk.sample(dict(trace_cfg=lines[0]["cfg"], n_events=len(lines[0]["ev"]), first_events=lines[0]["ev"][:6]))
+    return lines
